@@ -17,6 +17,7 @@ require (
 	go.step.sm/crypto v0.60.0
 	golang.org/x/crypto v0.37.0
 	golang.org/x/net v0.39.0
+	google.golang.org/grpc v1.71.1
 	google.golang.org/protobuf v1.36.6
 )
 
@@ -82,7 +83,6 @@ require (
 	golang.org/x/sys v0.32.0 // indirect
 	golang.org/x/text v0.24.0 // indirect
 	google.golang.org/genproto/googleapis/rpc v0.0.0-20250313205543-e70fdf4c4cb4 // indirect
-	google.golang.org/grpc v1.71.1 // indirect
 )
 
 replace github.com/smallstep/certificates => /repo
